@@ -59,7 +59,8 @@ def h_write_file(faults: bool):
         h.assume(z3.And(NORMABS(full), inside(rb, full), full != rb))
         h.reg.contracts[f"{SB}:LocalStorageBackend._resolve_path"] = lambda I, fv, a, k: SStr(full)
         h.reg.contracts[f"{SB}:LocalStorageBackend._real_base_path"] = lambda I, fv, a, k: SStr(rb)
-        h.reg.contracts["disk_utils:check_disk_space"] = lambda I, fv, a, k: None
+        # contract of check_disk_space (unit DISK/check_disk_space): returns None or raises OSError before anything is written
+        h.reg.contracts["disk_utils:check_disk_space"] = lambda I, fv, a, k: os_t.maybe_fault(I, "check_disk_space")
         h.reg.contracts["disk_utils:estimate_write_size"] = lambda I, fv, a, k: SInt(I.ctx.fresh_int("est"))
         h.reg.contracts["integrity:IntegrityChecker.compute_checksum"] = lambda I, fv, a, k: SStr(I.ctx.fresh_str("sha"))
         content = h.bytes("content")
@@ -258,7 +259,7 @@ for _mode in ("append", "both"):
     register(Unit(P, f"ORDER/_commit_file_ops-{_mode}", cp.h_commit_file_ops(_mode), functions=[f"{cp.TX}:Transaction._commit_file_ops"], replay=_replay_writer))
 
 from contracts import helpers as _HLP  # noqa: E402
-_HLP.register_under("C16", ["HELPER/validate_data_files", "HELPER/validate_file_exists", "HELPER/metadata-file-io"])
+_HLP.register_under("C16", ["HELPER/validate_data_files", "HELPER/validate_file_exists", "HELPER/metadata-file-io", "DISK/check_disk_space", "DISK/estimate_write_size"])
 
 from contracts import lemmas as _L  # noqa: E402
 register(Unit(P, "LEMMA/POWER-LOSS", _L.h_powerloss, functions=[], replay=_replay_writer, uses=_L.POWER_USES))
